@@ -45,7 +45,9 @@ def main(argv=None):
     finally:
         run.close_pool()
     if args.validate:
-        r = run.schema_validate(os.path.join(env.VERIF_DIR, 'evidence', f'{prop}.json'))
+        r = run.schema_validate(os.path.join(
+            os.environ.get('VERIF_EVIDENCE_DIR') or os.path.join(env.VERIF_DIR, 'evidence'),
+            f'{prop}.json'))
         if r is not None and not r[0]:
             print('HARNESS-ERROR evidence does not validate:', r[1], file=sys.stderr)
             return 2
